@@ -4,7 +4,8 @@
 export GOFLAGS=-mod=mod GOPROXY=off GOSUMDB=off GOTOOLCHAIN=local
 seed=$(readlink -f $1); name=$(basename $seed)
 prop=$(python3 -c "import json;print(json.load(open('$seed/meta.json'))['property'])")
-props="$prop ${EXTRA_PROPS:-}"
+comp=$(python3 -c "import json;print(' '.join(json.load(open('/verif/seeded/companions.json')).get('$name',[])))" 2>/dev/null)
+props="$prop $comp ${EXTRA_PROPS:-}"
 wt=$(mktemp -d /tmp/scratch-run.XXXXXX); rmdir $wt
 git -C /repo worktree add -q --detach $wt HEAD || exit 2
 trap 'git -C /repo worktree remove --force $wt 2>/dev/null; rm -rf $wt' EXIT
